@@ -270,13 +270,7 @@ def tag(line, impl, model):
 
 
 def classify(line, impl, why):
-    """C34-unquoted-user-field: a %code that does not ask for quoting (%un) under the default style, value with a blank"""
-    t = line.split(" ")
-    if t[0] == "a" and t[1] == "d" and t[2] == "n" and "unquoted field" in (why or ""):
-        return "C34-unquoted-user-field"
-    if t[0] == "w" and ((why or "").startswith("un= field: field separator") or "inside the unquoted un= field" in (why or "")):
-        return "C34-unquoted-user-field"
-    return None
+    return None     # no known findings: C34-unquoted-user-field is fixed (a3f7a36); its witnesses stay as cases
 
 
 def exhaustive(tier):
